@@ -804,10 +804,21 @@ func gffCorruptCase(r *RNG, id string) *Case {
 			long = fill("##gff-version 3 ", "", n, " ")
 			ls[0] = long
 		case "fasta":
-			if !d.hasFasta {
-				ls = append(ls, "##FASTA", ">"+row.seqid)
+			if n >= 1<<20-2 && n < 1<<20 {
+				// a line just below the token limit is valid: as a sequence line it would be decoded base by base with a
+				// string concatenation per base (EncodedFastaRecord.Decode is quadratic: three minutes for a MiB) - the
+				// properties say nothing about speed, so the long line is a header line here (ID + description)
+				if !d.hasFasta {
+					ls = append(ls, "##FASTA", fill(">"+row.seqid+" ", "", n, "d"), "ACGT")
+				} else {
+					ls = append(ls, fill(">extra ", "", n, "d"), "ACGT")
+				}
+			} else {
+				if !d.hasFasta {
+					ls = append(ls, "##FASTA", ">"+row.seqid)
+				}
+				ls = append(ls, fill("", "", n, "A"))
 			}
-			ls = append(ls, fill("", "", n, "A"))
 			if r.Chance(1, 2) {
 				ls = append(ls, ">tail", "ACGT")
 			}
